@@ -307,7 +307,13 @@ def c15(sc, tier, seed):
     return v.finish(rule='pairs (command, RESP2 reply, RESP3 reply) recorded from the real server for the command universes of the keyspace/hash/string/set models plus introspection commands, and for every reply tree of depth <= 2 over all node types (nil, int, string, bool, double incl. inf, big number, array, set, map; through the public dispatch hook); TLC (Trace_Resp) judges Resp2Only(r2) and r2 = Down(r3) for every pair; all 2-connection programs of length 3 over HELLO variants are replayed with wire-type checks against the protocol in force. Non-trivial = pair whose two wire forms differ.')
 
 
-CHECKS = {'C02': c02, 'C15': c15, 'C08': c08, 'C14': c14, 'C10': c10, 'C09': c09, 'C07': c07, 'C06': c06, 'C03': c03, 'C04': c04, 'C05': c05}
+def c18(sc, tier, seed):
+    return transition_check(sc, tier, seed, 'C18', ['MC_bitmaps', 'MC_bitfield'], quick_n=50000,
+                            rule='TLC enumerates MC_bitmaps (strings of 0-3 bytes over {00,ff,80,01,a5} x GETBIT/SETBIT at every offset 0..25, BITCOUNT and BITPOS over byte ranges -4..4 and bit ranges -25..30 with BYTE/BIT units, BITOP AND/OR/XOR/NOT over operand tuples incl. missing, repeated and wrong-typed ones) and MC_bitfield (BITFIELD GET/SET/INCRBY for 13 widths 1..64 x signedness x aligned, unaligned and #-scaled offsets spanning up to 9 bytes x the values at each type\'s overflow boundaries x OVERFLOW WRAP/SAT/FAIL, computed exactly on decimal digit sequences) and replays every transition with full-state comparison (so a write touching other bits, or a read changing the value, is seen).',
+                            assumptions=['BITFIELD wrap-around is modelled for values within two wraps of the type range (the universe only contains such values)'])
+
+
+CHECKS = {'C02': c02, 'C18': c18, 'C15': c15, 'C08': c08, 'C14': c14, 'C10': c10, 'C09': c09, 'C07': c07, 'C06': c06, 'C03': c03, 'C04': c04, 'C05': c05}
 
 
 def replay_path(path):
